@@ -312,3 +312,183 @@ def user_block(thir):
             continue
         break
     return n
+
+
+# ---- K9 LOOP-TOTAL: a `for` loop that must treat every element ---------------------------------------
+
+PANIC_FNS = ("core::panicking::", "std::rt::begin_panic", "core::panicking::panic_fmt", "std::process::abort",
+             "core::intrinsics::unreachable", "core::hint::unreachable_unchecked")
+
+
+def for_loops(thir, skip_tracing=True):
+    """[(outer match node, iterated expression, element pattern, body of the `Some(x) =>` arm)] for every `for` loop under thir."""
+    out = []
+    for l in walk(thir, skip_tracing):
+        if l.get("k") != "match" or not str(l.get("src", "")).startswith("ForLoopDesugar"):
+            continue
+        sc = l.get("scrut") or {}
+        if sc.get("k") != "call" or not str(sc.get("fn", "")).endswith("IntoIterator::into_iter"):
+            continue
+        inner = None
+        for n in walk(l["arms"][0]["body"], skip_tracing):
+            if n.get("k") == "match" and str(n.get("src", "")).startswith("ForLoopDesugar") and \
+                    str((n.get("scrut") or {}).get("fn", "")).endswith("Iterator::next"):
+                inner = n
+                break
+        if inner is None:
+            continue
+        some = [a for a in inner["arms"] if a["pat"].get("v") == "Some"]
+        if not some:
+            continue
+        pat = some[0]["pat"]["sub"][0][2] if some[0]["pat"].get("sub") else None
+        out.append((l, sc["args"][0], pat, some[0]["body"]))
+    return out
+
+
+def _is_question_mark(n):
+    return "`?`" in str(n.get("x", "")) or "QuestionMark" in str(n.get("x", ""))
+
+
+def loop_flow(node, passed, sink, excused=None):
+    """Structured control-flow walk of a loop body.  -> set of (outcome, passed) with outcome in
+    next | continue | break | return | errreturn | diverge.  `sink(node)` says whether evaluating a node satisfies the obligation of
+    the iteration; `excused(if-node)` -> 'then' | 'else' | None names a branch of an `if` that is allowed to skip the obligation."""
+    def seq(nodes, states):
+        """evaluate nodes in order from a set of (outcome, passed) states"""
+        done = set()
+        cur = set(states)
+        for x in nodes:
+            nxt = set()
+            for oc, p in cur:
+                if oc != "next":
+                    done.add((oc, p))
+                else:
+                    nxt |= ev(x, p)
+            cur = nxt
+        return done | cur
+
+    def ev(n, p):
+        if n is None:
+            return {("next", p)}
+        if isinstance(n, list):
+            return seq(n, {("next", p)})
+        if not isinstance(n, dict) or "k" not in n:
+            if isinstance(n, dict):
+                return seq([v for v in n.values() if isinstance(v, (dict, list))], {("next", p)})
+            return {("next", p)}
+        if is_tracing(n):
+            return {("next", p)}
+        k = n["k"]
+        if k == "closure":
+            return {("next", p)}
+        if k == "break":
+            return {("break", p)}
+        if k == "continue":
+            return {("continue", p)}
+        if k == "return":
+            r = ev(n.get("e"), p)
+            return {(("errreturn" if _is_question_mark(n) else "return"), q) if oc == "next" else (oc, q) for oc, q in r}
+        if k == "block":
+            return seq(list(n.get("stmts", [])) + [n.get("expr")], {("next", p)})
+        if k == "let":
+            r = ev(n.get("init"), p)
+            if n.get("else") is not None:
+                out = set()
+                for oc, q in r:
+                    if oc == "next":
+                        out.add(("next", q))
+                        out |= {(o2, q2) for o2, q2 in ev(n["else"], q) if o2 != "next"}
+                    else:
+                        out.add((oc, q))
+                return out
+            return r
+        if k == "if":
+            out = set()
+            ex = excused(n) if excused else None
+            for oc, q in ev(n.get("cond"), p):
+                if oc != "next":
+                    out.add((oc, q))
+                    continue
+                out |= ev(n.get("then"), True if ex == "then" else q)
+                if n.get("else") is not None:
+                    out |= ev(n["else"], True if ex == "else" else q)
+                else:
+                    out.add(("next", True if ex == "else" else q))
+            return out
+        if k == "logic":
+            out = set()
+            for oc, q in ev(n.get("l"), p):
+                if oc != "next":
+                    out.add((oc, q))
+                else:
+                    out.add(("next", q))
+                    out |= ev(n.get("r"), q)
+            return out
+        if k == "match":
+            out = set()
+            for oc, q in ev(n.get("scrut"), p):
+                if oc != "next":
+                    out.add((oc, q))
+                    continue
+                if sink(n):
+                    q = True
+                for a in n.get("arms", []):
+                    out |= ev(a.get("body"), q)
+            return out
+        if k == "loop":
+            out = set()
+            for oc, q in ev(n.get("body"), p):
+                if oc in ("break",):
+                    out.add(("next", q))
+                elif oc in ("next", "continue"):
+                    # runs again; an unconditional loop only leaves through break / return
+                    pass
+                else:
+                    out.add((oc, q))
+            return out or {("diverge", p)}
+        if k == "call":
+            kids = []
+            if isinstance(n.get("f"), dict):
+                kids.append(n["f"])
+            kids.extend(n.get("args", []))
+            out = set()
+            for oc, q in seq(kids, {("next", p)}):
+                if oc != "next":
+                    out.add((oc, q))
+                elif any(str(n.get("fn", "")).startswith(x) for x in PANIC_FNS):
+                    out.add(("diverge", q))
+                else:
+                    out.add(("next", True if sink(n) else q))
+            return out
+        # generic: evaluate sub-expressions in order
+        kids = []
+        for key, v in n.items():
+            if key in ("pat", "ty"):
+                continue
+            if isinstance(v, (dict, list)):
+                kids.append(v)
+        out = seq(kids, {("next", p)})
+        if sink(n):
+            out = {(oc, True) if oc == "next" else (oc, q) for oc, q in out}
+        return out
+
+    return ev(node, passed)
+
+
+def loop_total(ck, rule, inst, body_where, loop_body, sink, excused=None, allow_err_exit=False, what="the element"):
+    """K9: every iteration of the loop reaches `sink` (except through an excused branch) and the loop is left only by exhaustion."""
+    res = loop_flow(loop_body, False, sink, excused)
+    bad = []
+    if any(oc in ("next", "continue") and not p for oc, p in res):
+        bad.append("an iteration can finish without processing %s (a `continue`, a filter or a branch skips it)" % what)
+    if any(oc == "break" for oc, p in res):
+        bad.append("the loop can `break` before all elements were seen")
+    if any(oc == "return" for oc, p in res):
+        bad.append("the loop can `return` before all elements were seen")
+    if not allow_err_exit and any(oc == "errreturn" for oc, p in res):
+        bad.append("the loop can leave through `?` before all elements were seen")
+    if bad:
+        ck.violation(rule, inst, body_where, "; ".join(bad))
+        return False
+    ck.ok(rule, inst, "every iteration reaches the sink; no early exit (%d path class(es))" % len(res))
+    return True
